@@ -110,6 +110,20 @@ class UserCallable:
     what: str
 
 
+class Record:
+    """An instance of a plain record class of the package (typing.NamedTuple, or a @dataclass without a hand-written
+    __init__): named fields holding abstract values."""
+
+    def __init__(self, ci: ClassInfo, fields: dict):
+        self.ci, self.fields = ci, fields
+
+    def __repr__(self):
+        return f"Record({self.ci.name}, {self.fields})"
+
+
+from .loader import record_fields  # noqa: E402,F401
+
+
 # ------------------------------------------------------------------ terms
 def _expand_parts(parts) -> list[str]:
     """index parts as a set of base parts: a `sorted:` token stands for the same indices in ascending order"""
@@ -716,6 +730,9 @@ class Machine:
                 self.heap[name][attr] = v
                 self.log("slot-write", f"{name}.{attr}", st, fi, {"obj": name, "slot": attr, "value": v})
                 return
+        if isinstance(o, Record):
+            o.fields[attr] = v
+            return
         if isinstance(o, FreshAtoms):
             return  # writes on scratch copies are invisible
         if isinstance(o, Opaque):
@@ -1228,10 +1245,19 @@ class Machine:
             if m is None:
                 return Opaque(f"super.{attr}")
             return Bound(Ref(o.obj), m)
+        if isinstance(o, Record):
+            if attr in o.fields:
+                return o.fields[attr]
+            m = self.prog.lookup_method(o.ci, attr)
+            if m is not None:
+                if m.kind == "property":
+                    return self.call_function(m, [o], {})
+                return Bound(o if m.kind != "static" else None, m) if m.kind != "class" else Bound(ClassVal(o.ci), m)
+            return Opaque(f"{o.ci.name}.{attr}")
         if isinstance(o, ClassVal):
             m = self.prog.lookup_method(o.ci, attr)
             if m is not None:
-                return Bound(None, m)
+                return Bound(o if m.kind == "class" else None, m)
             if attr == "__name__":
                 return o.ci.name
             return Opaque(f"{o.ci.name}.{attr}")
@@ -1246,6 +1272,12 @@ class Machine:
         return Opaque(f"?.{attr}")
 
     def e_Call(self, e, env, fi):
+        if isinstance(e.func, ast.Name) and e.func.id not in env:
+            from .normalize import _apply_module_partial
+
+            e2 = _apply_module_partial(self.prog, fi, e)  # a module-level functools.partial(np.hstack, …) alias
+            if e2 is not e:
+                e = e2
         f = e.func
         # super()
         if isinstance(f, ast.Name) and f.id == "super" and not e.args:
@@ -1401,11 +1433,29 @@ class Machine:
             self.log("user-call", fv.what, e, fi)
             return Opaque("user:" + fv.what)
         if isinstance(fv, ClassVal):
+            rf = record_fields(self.prog, fv.ci)
             hk = self.hooks.get("construct")
-            if hk:
+            if hk and rf is None:
                 r = hk(self, fv.ci, args, kwargs, e, fi)
                 if r is not None:
                     return r
+            if rf is not None:
+                fields = {}
+                names = [n for n, _d in rf]
+                if len(args) > len(names) or any(k not in names for k in kwargs):
+                    raise SimRaise(f"TypeError: unexpected arguments for record {fv.ci.name}")
+                for n_, a_ in zip(names, args):
+                    fields[n_] = a_
+                for k_, v_ in kwargs.items():
+                    if k_ in fields:
+                        raise SimRaise(f"TypeError: multiple values for {k_}")
+                    fields[k_] = v_
+                for n_, d_ in rf:
+                    if n_ not in fields:
+                        if d_ is None:
+                            raise SimRaise(f"TypeError: missing field {n_} of {fv.ci.name}")
+                        fields[n_] = self.ev(d_, {}, fi)
+                return Record(fv.ci, fields)
             return Opaque(f"new {fv.ci.name}")
         if isinstance(fv, Ref) and fv.comp is None and fv.obj in self.cls_of:
             # calling a model object: __call__
